@@ -183,3 +183,129 @@ def reaches(fn, a, b):
         seen.add(x)
         stack.extend(s for (s, _) in fn.succ_edges(x))
     return pb[0] in seen
+
+
+# ---------------------------------------------------------------------------------------
+def obj_field(fn, call):
+    """template-stripped field at the end of the object expression's access path of a member call / member operator call"""
+    n = fn.N(call)
+    o = fn.obj(call)
+    if o is None:
+        return None
+    ap = fn.access_path(o)
+    if not ap:
+        return None
+    last = ap[-1]
+    return strip_targs(last) if last.startswith('f:') else last
+
+
+def field_calls(fn, field_suffix, method=None, root=None):
+    """member calls `<...>.field.method(...)`; field matched by suffix of the template-stripped field ref"""
+    out = []
+    for i in fn.calls(root):
+        n = fn.N(i)
+        if n['k'] not in ('CXXMemberCallExpr', 'CXXOperatorCallExpr'):
+            continue
+        of = obj_field(fn, i)
+        if of is None or not of.endswith(field_suffix):
+            continue
+        sh = short_of(n.get('cn')) if n['k'] == 'CXXMemberCallExpr' else 'operator' + n.get('op', '')
+        if method is not None and sh != method and not (isinstance(method, (set, tuple, list)) and sh in method):
+            continue
+        out.append(i)
+    return out
+
+
+def mentions_field_call(fn, root, field_suffix, method):
+    return any(True for _ in field_calls(fn, field_suffix, method, root))
+
+
+def end_compare_gate(fn, field_suffix, want_equal_end):
+    """gate edges on which `X == field.end()` is known to be `want_equal_end` (handles == and !=, operator calls and built-ins)"""
+    def pred(atom, pol):
+        n = fn.N(atom)
+        op = n.get('op')
+        if op not in ('==', '!=') or n['k'] not in ('CXXOperatorCallExpr', 'BinaryOperator'):
+            return False
+        if not mentions_field_call(fn, atom, field_suffix, 'end'):
+            return False
+        is_eq = pol if op == '==' else (not pol)
+        return is_eq == want_equal_end
+    return fn.gate_edges(pred)
+
+
+def blocks_of(fn, nodes):
+    out = set()
+    for i in nodes:
+        p = fn.point_of(i)
+        if p is not None:
+            out.add(p[0])
+    return out
+
+
+def always_after(fn, a, events, with_catch=False):
+    """on every normal path from node a to function exit, one of `events` (nodes) is evaluated"""
+    pa = fn.last_point_of(a)
+    evb = {}
+    for e in events:
+        p = fn.point_of(e)
+        if p is not None:
+            evb.setdefault(p[0], []).append(p[1])
+    if pa[0] in evb and any(ix > pa[1] for ix in evb[pa[0]]):
+        return True
+    cut = set(evb) | fn.abnormal_blocks()
+    cut.discard(pa[0])
+    reach = fn.reachable_blocks(start=pa[0], cut_blocks=cut, with_catch=with_catch)
+    # loops: a may be re-entered; the start block itself is fine
+    return fn.exit not in reach
+
+
+def always_before_exit(fn, events, with_catch=False):
+    """every normal path entry -> exit evaluates one of `events`"""
+    evb = blocks_of(fn, events)
+    reach = fn.reachable_blocks(cut_blocks=evb | fn.abnormal_blocks(), with_catch=with_catch)
+    return fn.exit not in reach
+
+
+def incdec_of_field(fn, field_suffix, ops=('++', '--')):
+    out = []
+    for i in fn.all_nodes():
+        n = fn.N(i)
+        if n['k'] == 'UnaryOperator' and n.get('op') in ops:
+            r = fn.ref_of(n['ch'][0])
+            if r and strip_targs(r).endswith(field_suffix):
+                out.append(i)
+        elif n['k'] == 'CompoundAssignOperator' and n.get('op') in ('+=', '-='):
+            r = fn.ref_of(n['ch'][0])
+            if r and strip_targs(r).endswith(field_suffix):
+                if ('++' in ops and n['op'] == '+=') or ('--' in ops and n['op'] == '-='):
+                    out.append(i)
+    return out
+
+
+def field_writes(fn, field_suffix):
+    """assignments / ++ / -- / compound assignments whose target is the field"""
+    out = []
+    for i in fn.all_nodes():
+        n = fn.N(i)
+        if n['k'] in ('BinaryOperator', 'CompoundAssignOperator') and n.get('op') in ASSIGN_OPS:
+            r = fn.ref_of(n['ch'][0])
+            if r and strip_targs(r).endswith(field_suffix):
+                out.append(i)
+        elif n['k'] == 'UnaryOperator' and n.get('op') in ('++', '--'):
+            r = fn.ref_of(n['ch'][0])
+            if r and strip_targs(r).endswith(field_suffix):
+                out.append(i)
+        elif n['k'] == 'CXXOperatorCallExpr' and n.get('op') in ASSIGN_OPS + ('++', '--') and len(n['ch']) > 1:
+            r = fn.ref_of(n['ch'][1])
+            if r and strip_targs(r).endswith(field_suffix):
+                out.append(i)
+    return out
+
+
+def loops(fn, root=None):
+    return [i for i in (fn.walk(root) if root is not None else fn.walk()) if fn.N(i)['k'] in ('ForStmt', 'WhileStmt', 'DoStmt', 'CXXForRangeStmt')]
+
+
+def enclosing_loops(fn, i):
+    return [a for a in fn.ancestors(i) if fn.N(a)['k'] in ('ForStmt', 'WhileStmt', 'DoStmt', 'CXXForRangeStmt')]
